@@ -392,6 +392,7 @@ func TestVerifC07RoundTrip(t *testing.T) {
 	defer vkit.WriteStats()
 	defer verifTempCleanup()
 	verifRequire(t)
+	propC07RT.CrashFile = true
 	propC07RT.Check(t)
 }
 
@@ -468,6 +469,7 @@ func TestVerifC07YAMLRoundTrip(t *testing.T) {
 	defer vkit.WriteStats()
 	defer verifTempCleanup()
 	verifRequire(t)
+	propC07YAML.CrashFile = true
 	propC07YAML.Check(t)
 }
 
@@ -775,6 +777,7 @@ func TestVerifC07Concurrent(t *testing.T) {
 	defer vkit.WriteStats()
 	defer verifTempCleanup()
 	verifRequire(t)
+	propC07Conc.CrashFile = true
 	propC07Conc.Check(t)
 }
 
@@ -1460,5 +1463,6 @@ func TestVerifC07Crash(t *testing.T) {
 	if _, err := exec.LookPath("strace"); err != nil {
 		t.Fatalf("HARNESS: strace not available: %v", err)
 	}
+	propC07Crash.CrashFile = true
 	propC07Crash.Check(t)
 }
